@@ -628,10 +628,14 @@ def search_finders(ctx):
     # general convex quadrilaterals (interior grid nodes moved by integer offsets of a 8x scaled grid)
     for _ in range(ctx.n(3, 10)):
         m = skfem.MeshQuad.init_tensor(np.arange(4) * 8.0, np.arange(4) * 8.0)
-        p = m.p.copy()
         inner = m.interior_nodes()
-        p[:, inner] += np.array([[rng.randrange(-2, 3) for _ in inner], [rng.randrange(-2, 3) for _ in inner]], dtype=float)
-        check_finder_mesh(ctx, skfem.MeshQuad(p, m.t), 'convex-quads', rng, pk, stats)
+        while True:
+            p = m.p.copy()
+            p[:, inner] += np.array([[rng.randrange(-2, 3) for _ in inner], [rng.randrange(-2, 3) for _ in inner]], dtype=float)
+            mq = skfem.MeshQuad(p, m.t)
+            if _strictly_convex_quads(mq):
+                break
+        check_finder_mesh(ctx, mq, 'convex-quads', rng, pk, stats)
     for _ in range(ctx.n(4, 12)):
         check_finder_mesh(ctx, line_mesh(rng, rng.randrange(3, 9)), 'line', rng, max(4, pk // 2), stats)
     # general hexahedra (non-planar faces) and prisms with moved nodes: no exact containment formula; points are images
@@ -790,6 +794,186 @@ def search_probes(ctx):
     ctx.extra['probes_search'] = {'configurations': n, 'max_relative_discrepancy': worst, 'tolerance': 1e-11}
 
 
+# ============================================================================ search(): probes on general (non-parallelogram) cells
+
+GENERAL_ELEMS = {
+    'quad': ['ElementQuad1', 'ElementQuad2', 'ElementQuadS2', 'ElementVector:ElementQuad1', 'ElementVector:ElementQuad2', 'ElementQuadP:3', 'ElementQuad0'],
+    'hex': ['ElementHex1', 'ElementHex2', 'ElementVector:ElementHex1', 'ElementHex0'],
+}
+
+
+def _strictly_convex_quads(m, margin=8.0):
+    P = m.p[:, m.t]                      # (2, 4, nt), vertices in cyclic order
+    sg = []
+    for k in range(4):
+        a, b, c = P[:, k], P[:, (k + 1) % 4], P[:, (k + 2) % 4]
+        sg.append((b[0] - a[0]) * (c[1] - b[1]) - (b[1] - a[1]) * (c[0] - b[0]))
+    sg = np.array(sg)
+    return bool(np.all(np.all(sg >= margin, axis=0) | np.all(sg <= -margin, axis=0)))
+
+
+def general_mesh(rng, kind, some_affine=True):
+    """meshes that mix rectangles / boxes with general convex cells.
+    quad: tensor mesh on an 8x integer grid, interior nodes moved by integers (strict convexity checked); with some_affine
+          only ONE interior node moves, so the cells not touching it stay rectangles.
+    hex : tensor mesh whose layers above z = 8 are widened linearly in z about the centre line: frusta with PLANAR faces
+          (convex cells, not parallelepipeds); the bottom layer stays boxes.
+    returns (mesh, set of moved vertices)"""
+    import skfem
+    if kind == 'quad':
+        grids = [np.arange(4) * 8.0, np.arange(4) * 8.0]
+        m0 = skfem.MeshQuad.init_tensor(*grids)
+        inner = np.setdiff1d(np.arange(m0.p.shape[1]), m0.boundary_nodes())
+        if some_affine:
+            inner = inner[[rng.randrange(len(inner))]]
+        while True:
+            p = m0.p.copy()
+            for v in inner:
+                while True:
+                    d = [rng.randrange(-2, 3) for _ in range(2)]
+                    if sum(abs(x) for x in d) >= 2:
+                        break
+                p[:, v] += np.array(d, dtype=float)
+            m = skfem.MeshQuad(p, m0.t)
+            if _strictly_convex_quads(m):
+                return m, set(int(v) for v in inner)
+    grids = [np.arange(3) * 8.0, np.arange(3) * 8.0, np.arange(3 if some_affine else 4) * 8.0]
+    m0 = skfem.MeshHex.init_tensor(*grids)
+    p = m0.p.copy()
+    alpha = rng.choice([1.0 / 32, 1.0 / 16, -1.0 / 64])
+    f = 1.0 + alpha * np.maximum(0.0, p[2] - 8.0)
+    p[0] = 8.0 + (p[0] - 8.0) * f + rng.choice([0.0, 1.0]) * np.maximum(0.0, p[2] - 8.0) / 8.0
+    p[1] = 8.0 + (p[1] - 8.0) * f
+    moved = set(int(v) for v in np.nonzero(m0.p[2] > 8.0)[0])
+    return skfem.MeshHex(p, m0.t), moved
+
+
+def nodal_vector(bs, fun):
+    """coefficients of the function fun(x) -> (ncomp, n) in a nodal (Lagrange-type, possibly vector) basis: value of the
+    right component at the location of every DOF; None if some DOF has no location"""
+    X = bs.doflocs
+    if X is None or np.isnan(X).any():
+        return None
+    tord = tuple(bs._base_tensor_order)
+    ncomp = int(np.prod(tord)) if tord else 1
+    vals = np.atleast_2d(fun(X))
+    comp = np.zeros(bs.N, dtype=int)
+    if ncomp > 1:
+        # local function k of a vector element belongs to component k % ncomp
+        for k in range(bs.Nbfun):
+            comp[bs.element_dofs[k]] = k % ncomp
+    return vals[comp, np.arange(bs.N)]
+
+
+def search_probes_general(ctx):
+    """batches of query points on meshes that mix rectangles with general convex quadrilaterals / hexahedra: the
+    inverse map is a Newton iteration there, with a different number of steps per point.  The batched result must equal
+    (i) the one-point-at-a-time evaluation, (ii) the exact value of a known function of the element space, and at the
+    quadrature points (iii) Basis.interpolate."""
+    import skfem
+    rng = ctx.rng
+    worst, n = 0.0, 0
+    for kind, names in GENERAL_ELEMS.items():
+        for rep in range(ctx.n(2, 6)):
+            m, moved = general_mesh(rng, kind, some_affine=(rep % 2 == 0))
+            mp = m._mapping()
+            nt = m.t.shape[1]
+            d = m.p.shape[0]
+            touched = [c for c in range(nt) if moved & set(int(v) for v in m.t[:, c])]
+            plain = [c for c in range(nt) if c not in touched]
+            for ename in names:
+                try:
+                    bs = skfem.Basis(m, make_elem(ename))
+                except Exception as ex:      # element not available: not a probes issue
+                    ctx.hist('probes_skipped', f'{ename}:{type(ex).__name__}')
+                    continue
+                # a batch: generic reference points in distorted cells and (if any) in rectangles, in mixed order, with a repetition
+                cells = [rng.choice(touched) for _ in range(rng.randrange(2, 5))] + ([rng.choice(plain)] if plain else []) \
+                    + [rng.choice(touched)]
+                rng.shuffle(cells)
+                cols = []
+                for c in cells:
+                    vals = rng.sample([0.29, 0.43, 0.61, 0.37, 0.53, 0.17, 0.83], d)
+                    cols.append(mp.F(np.array(vals)[:, None], tind=np.array([c]))[:, 0, 0])
+                x = np.array(cols).T
+                x = np.hstack((x, x[:, [0]]))
+                key = f'{ename}:{type(m).__name__}:general-cells'
+                data = {'element': ename, 'mesh_class': type(m).__name__, 'p': m.p.tolist(), 't': m.t.tolist(),
+                        'points': x.tolist(), 'site': 'probes-general'}
+                tord = tuple(bs._base_tensor_order)
+                ncomp = int(np.prod(tord)) if tord else 1
+                # a function of the element space: affine in the physical coordinates (component-wise different)
+                coef = np.array([[1.0 + j, 0.5 - 0.25 * j, -0.75 + 0.5 * j, 0.375][:d + 1] for j in range(ncomp)])
+
+                def fun(X, coef=coef):
+                    return coef[:, [0]] + coef[:, 1:] @ X
+                y_exact = nodal_vector(bs, fun) if ename not in ('ElementQuad0', 'ElementHex0', 'ElementQuadP:3') else None
+                y = y_exact if y_exact is not None else np.cos(1.0 + 0.37 * np.arange(bs.N))
+                try:
+                    got = (bs.probes(x) @ y).reshape(tord + (x.shape[1],))
+                    ref = direct_eval(bs, x, y)
+                    itp = np.asarray(bs.interpolator(y)(x))
+                except Exception as ex:       # noqa: BLE001 - interior points of a valid mesh
+                    cl = None
+                    if isinstance(ex, ValueError) and 'outside' in str(ex):
+                        for col in range(x.shape[1]):
+                            xp = tuple(Fr(float(v)) for v in x[:, col])
+                            if run_finder(m, [xp])[0] == 'raises':
+                                cl = 'raise'
+                    ctx.fail(f'probes:{key}:exception', f'probes / interpolator raised {type(ex).__name__}: {ex} ({cl})', data)
+                    continue
+                n += 1
+                ctx.count(('probes-general', key, x.tobytes(), m.p.tobytes()), nontrivial=True)
+                ctx.hist('probes_general_element', ename)
+                scale = 1.0 + float(np.max(np.abs(ref)))
+                d1 = float(np.max(np.abs(got - ref))) / scale
+                worst = max(worst, d1)
+                if d1 > 1e-9:
+                    ctx.fail(f'probes:{key}:batch-vs-single', f'probes of a batch of {x.shape[1]} points differs from the one-point-at-a-time '
+                             f'evaluation of the located cells by {d1:.2e}', dict(data, diff=d1))
+                d2 = float(np.max(np.abs(itp.reshape(got.shape) - ref))) / scale
+                if d2 > 1e-9:
+                    ctx.fail(f'interpolator:{key}:batch-vs-single', f'interpolator(y)(x) on a batch differs from one-point-at-a-time evaluation by {d2:.2e}', dict(data, diff=d2))
+                if y_exact is not None:
+                    ex_v = fun(x).reshape(got.shape) if tord else fun(x)[0]
+                    d3 = float(np.max(np.abs(got - ex_v))) / scale
+                    worst = max(worst, d3)
+                    if d3 > 1e-9:
+                        ctx.fail(f'probes:{key}:exact-affine-function', f'probes(x) @ (nodal values of an affine function) differs from the function by {d3:.2e}',
+                                 dict(data, diff=d3))
+                    v0 = float(bs.point_source(x[:, 1]) @ y)
+                    r0 = float(np.asarray(ex_v)[(0,) * len(tord) + (1,)])
+                    if abs(v0 - r0) / scale > 1e-9:
+                        ctx.fail(f'point_source:{key}:exact-affine-function', f'point_source(x) . y = {v0}, exact value {r0}', data)
+                # quadrature points of distorted and plain cells together
+                gx = bs.global_coordinates().value
+                sub = (touched[:2] + plain[:1] + touched[2:3])[:4]
+                xq = gx[:, sub, :].reshape(gx.shape[0], -1)
+                try:
+                    vq = (bs.probes(xq) @ y).reshape(tord + (len(sub), gx.shape[2]))
+                    iq = np.asarray(bs.interpolate(y).value)[..., sub, :]
+                    dq = float(np.max(np.abs(vq - iq))) / scale
+                    worst = max(worst, dq)
+                    if dq > 1e-9:
+                        ctx.fail(f'probes-at-quadrature-vs-interpolate:{key}', f'probes at the quadrature points differ from interpolate by {dq:.2e}',
+                                 dict(data, cells=sub))
+                except Exception as ex:      # noqa: BLE001
+                    if not isinstance(ex, ValueError):
+                        ctx.fail(f'probes-at-quadrature:{key}:exception', f'probes at quadrature points raised {type(ex).__name__}: {ex}', dict(data, cells=sub))
+                        continue
+                    for col in range(xq.shape[1]):
+                        xp = tuple(Fr(float(v)) for v in xq[:, col])
+                        if run_finder(m, [xp])[0] == 'raises':
+                            # no exact containment formula for general cells: on-facet class iff the float test misses by rounding noise only
+                            best = float_best(m, xp)
+                            if best is not None and -1e-12 <= best < 0:
+                                ctx.fail(F11_KEY, F11_TEXT + f' (quadrature point {fl(xp)} of {key})', dict(data, point=[str(v) for v in xp]))
+                            else:
+                                ctx.fail(f'probes-at-quadrature:{key}:raises', f'finder raised on the quadrature point {fl(xp)}: {ex}', dict(data, point=[str(v) for v in xp]))
+                            break
+    ctx.extra['probes_general_search'] = {'configurations': n, 'max_relative_discrepancy': worst, 'tolerance': 1e-9}
+
+
 def replay(ctx, data):
     import skfem
     inp = data['input']
@@ -805,7 +989,20 @@ def replay(ctx, data):
         bad = (r[0] == 'raises' and exact) or (r[0] == 'ok' and r[1][0] not in exact)
         if bad:
             ctx.fail(data['key'], data['what'], inp)
+    elif site == 'probes-general':
+        m = getattr(skfem, inp['mesh_class'])(np.array(inp['p']), np.array(inp['t']))
+        bs = skfem.Basis(m, make_elem(inp['element']))
+        x = np.array(inp['points'])
+        y = np.cos(1.0 + 0.37 * np.arange(bs.N))
+        tord = tuple(bs._base_tensor_order)
+        got = (bs.probes(x) @ y).reshape(tord + (x.shape[1],))
+        ref = direct_eval(bs, x, y)
+        diff = float(np.max(np.abs(got - ref)))
+        ctx.log('batch vs one-point-at-a-time: max abs difference', diff)
+        if diff > 1e-9 * (1 + float(np.max(np.abs(ref)))):
+            ctx.fail(data['key'], data['what'], inp)
     else:
         ctx.log('replay: re-running the search')
         search_finders(ctx)
         search_probes(ctx)
+        search_probes_general(ctx)
